@@ -223,39 +223,57 @@ BAD = [
 ]
 
 
-def selftests(ctx, segs, rejected):
-    acc, rej = vlib.validate_segments(ctx, 'TraceWaiter', TCFG, SPEC, GOOD, name='self-good', count=False)
-    if rej:
-        raise vlib.Inconclusive('soundness self-test: legitimate hand-written history %d rejected at event %d' % rej[0])
-    bad = BAD if ctx.thorough() else BAD[:2]
-    done = []
-    # corrupt real histories: drop a callback event, flip a take result
-    real = []
-    for si, s in enumerate(segs):
-        if si in rejected:
+def safe_cb(seg):
+    """Index of a cb event whose removal cannot be explained away: no register/unregister of the
+    same entry is in flight anywhere between the call and the ret of the Notify that ran it."""
+    for i, e in enumerate(seg):
+        if e['ev'] != 'cb':
             continue
-        cbs = [i for i, e in enumerate(s) if e['ev'] == 'cb']
-        if cbs and not any(n == 'drop' for n, _ in real):
+        c = max(k for k in range(i) if seg[k]['ev'] == 'call' and seg[k]['g'] == e['g'])
+        r = min(k for k in range(i, len(seg)) if seg[k]['ev'] == 'ret' and seg[k]['g'] == e['g'])
+        pending = {}
+        clash = False
+        for k, x in enumerate(seg[:r + 1]):
+            if x['ev'] == 'call':
+                pending[x['g']] = x
+            elif x['ev'] == 'ret':
+                pending.pop(x['g'], None)
+            if k >= c and any(y.get('e') == e['e'] and y['op'] in ('register', 'unregister') for y in pending.values()):
+                clash = True
+        if not clash:
+            return i
+    return None
+
+
+def selftests(ctx, segs, rejected, seqsegs):
+    bad = BAD if ctx.thorough() else [BAD[0], BAD[2]]
+    done = []
+    tests = []
+    # corrupt real histories: drop a callback event (concurrent history), flip a take result (sequential one)
+    for si, s in enumerate(segs):
+        i = None if si in rejected else safe_cb(s)
+        if i is not None:
             t = copy.deepcopy(s)
-            del t[cbs[len(cbs) // 2]]
-            real.append(('drop', t))
-        tk = [i for i, e in enumerate(s) if e['ev'] == 'ret' and 'ok' in e]
-        if tk and not any(n == 'flip' for n, _ in real):
-            t = copy.deepcopy(s)
-            t[tk[0]]['ok'] = not t[tk[0]]['ok']
-            real.append(('flip', t))
-        if len(real) == 2:
+            del t[i]
+            tests.append(('real concurrent history, one cb event dropped', t))
             break
-    if not any(n == 'drop' for n, _ in real):
-        raise vlib.Inconclusive('vacuity: no recorded concurrent history contains a callback event')
-    tests = [('real history, one cb event dropped' if n == 'drop' else 'real history, take result flipped', t) for n, t in real] + list(bad)
+    if not tests:
+        raise vlib.Inconclusive('vacuity: no recorded concurrent history contains a usable callback event')
+    if ctx.thorough():
+        for s in seqsegs:
+            tk = [i for i, e in enumerate(s) if e['ev'] == 'ret' and 'ok' in e]
+            if tk:
+                t = copy.deepcopy(s)
+                t[tk[0]]['ok'] = not t[tk[0]]['ok']
+                tests.append(('real sequential history, take result flipped', t))
+                break
+    tests += list(bad)
     for name, seg in tests:
         acc, rej = vlib.validate_segments(ctx, 'TraceWaiter', TCFG, SPEC, [seg], name='self-bad', count=False)
         if not rej:
             raise vlib.Inconclusive('binding self-test failed: corrupted history accepted (%s)' % name)
         done.append('%s: rejected at event %d' % (name, rej[0][1]))
     ctx.extra['binding_selftest'] = done
-    ctx.extra['soundness_selftest'] = '%d legitimate hand-written histories accepted' % len(GOOD)
 
 
 def replay(ctx, obj):
@@ -282,13 +300,8 @@ def run(ctx):
 
     # ---- E1: closed model, P-spec and I-spec in lockstep, all op sequences up to the bound
     for tag, kinds, n in ctx.pick([('a', K0, 6)], [('a', K0, 8), ('b', K1, 7)]):
-        # coverage (vacuity guard) on the thorough tier; on the quick tier the guard runs on graph model `a` below
-        r = ctx.tlc('MCWaiter', mc_cfg(kinds, ['in', 'out'], n), SPEC, name='MCWaiter-%s%d' % (tag, n), coverage=ctx.thorough(),
-                    must_pass=True, timeout=3000)
-        if ctx.thorough():
-            z = ctx.zero_coverage(r)
-            if z or not r.cov:
-                raise vlib.Inconclusive('vacuity: actions never taken in MCWaiter: %s' % z)
+        # (the vacuity guard - per-action coverage - runs on graph model `a` below: same module, same actions)
+        ctx.tlc('MCWaiter', mc_cfg(kinds, ['in', 'out'], n), SPEC, name='MCWaiter-%s%d' % (tag, n), must_pass=True, timeout=3000)
     ctx.extra['exhaustive'] = True
 
     # ---- E2: every transition of the state graph replayed on the real Queue
@@ -307,11 +320,11 @@ def run(ctx):
 
     # ---- E3: sequential histories (one goroutine, all six event bits, observation after every op)
     nseq = ctx.pick(30, 300)
-    histories(ctx, drv, 'seq', ctx.seed, nseq, 1, 24, state)
+    seqsegs, _, _ = histories(ctx, drv, 'seq', ctx.seed, nseq, 1, 24, state)
     ctx.extra['seq_histories'] = nseq
 
     # ---- E4: concurrent histories, linearized by TLC
-    nrace = ctx.pick(50, 2000)
+    nrace = ctx.pick(64, 2000)
     segs, summ, rejected = histories(ctx, drv, 'race', ctx.seed, nrace, 4, 5, state)
     ctx.extra['race_histories'] = len(segs)
     ctx.extra['race_overlapping_histories'] = summ.get('overlapping')
@@ -329,16 +342,26 @@ def run(ctx):
     if state['violations']:
         return
 
-    # ---- vacuity guard on the trace spec: every action of TraceWaiter is exercised by real histories
+    # ---- vacuity guard on the trace spec (every action of TraceWaiter is exercised by real histories) and
+    #      soundness self-test (hand-written legitimate histories must be accepted), one TLC run
     sample = [e for s in segs[:12] for e in s]
+    ngood = len(sample)
+    sample += [e for s in GOOD for e in s]
     rc = ctx.tlc('TraceWaiter', TCFG, SPEC, name='race-coverage', workers=1, dfs=True, coverage=True, count=False,
                  files={'trace.ndjson': '\n'.join(json.dumps(e) for e in sample) + '\n'})
+    if not rc.ok:
+        import re
+        m = re.search(r'"REJECTED_AT", (\d+)', rc.out)
+        if m and int(m.group(1)) > ngood:
+            raise vlib.Inconclusive('soundness self-test: a legitimate hand-written history is rejected (trace line %s)' % m.group(1))
+        raise vlib.Inconclusive('coverage run of TraceWaiter did not accept already accepted histories')
     z = ctx.zero_coverage(rc)
-    if not rc.ok or z or not rc.cov:
-        raise vlib.Inconclusive('vacuity: TraceWaiter actions never taken on real histories: %s (ok=%s)' % (z, rc.ok))
+    if z or not rc.cov:
+        raise vlib.Inconclusive('vacuity: TraceWaiter actions never taken on real histories: %s' % z)
+    ctx.extra['soundness_selftest'] = '%d legitimate hand-written histories accepted' % len(GOOD)
 
     # ---- binding / soundness self-tests
-    selftests(ctx, segs, rejected)
+    selftests(ctx, segs, rejected, seqsegs)
     ctx.assumptions += ['contract: an entry is registered only while unregistered and unregistered only while registered (each entry has one owning goroutine); callbacks do not call the queue',
                         'the event log is mutex-serialised: call logged before invoking, ret after return, cb from inside the callback',
                         'constants: 3 entries, masks over {in,out} for the exhaustive model; <= 4 goroutines x 5 ops per concurrent history']
